@@ -26,6 +26,10 @@ PROBES = {
     'setext': 'Foo\n---\n\nBar\n===\n\n###\n\n    code\n',
     # references to labels that only OTHER probe documents define: must stay literal whatever was parsed (or failed to parse) before
     'uses-ref': '[ref] and [ent] and ![ref][]\n',
+    # an HTML block whose end condition is a marker (kind 2), then one that ends at a blank line (kind 7): what the first one
+    # leaves in the class-level scratch of HtmlBlock must not decide where the second one ends
+    'html-comment': 'intro\n\n<!-- a comment\nover two lines -->\n\ntext\n',
+    'html-custom': '<span class="x">\n*inside*\n\nafter *block*\n\n<?php echo 1; ?>\n',
     'heading-last': 'text\n\n> ## Quoted title ##\n\n# Release notes\n',        # leaves the scratch state of a heading WITH text behind
     # every construct in its EMPTY spelling: scratch state that a reader fills only when there is something to put in shows here
     'empties': '### ###\n\n# #\n\n##\n\n```\n```\n\n-\n\n>\n\n~~~ \n~~~\n\n1.\n\n| |\n|-|\n',
@@ -277,7 +281,7 @@ def replay_history(rec, fresh_tab, idx):
             drift.append('residue at quiescent point: %s' % res)
         # probes: self-contained calls compared with a fresh interpreter
         import functools
-        order = ['plain', 'uses-ref', 'setext', 'composite', 'uses-ref', 'heading-last', 'empties', 'inline-entity'] if idx % 2 else ['uses-ref', 'plain', 'inline-entity', 'empties', 'setext', 'composite', 'heading-last', 'empties']
+        order = ['plain', 'uses-ref', 'setext', 'composite', 'uses-ref', 'html-comment', 'html-custom', 'heading-last', 'empties', 'inline-entity'] if idx % 2 else ['uses-ref', 'plain', 'inline-entity', 'empties', 'html-custom', 'html-custom', 'setext', 'composite', 'heading-last', 'empties']
         kinds = ['Html', ['Plain', 'GithubWiki', 'MathJax', 'LaTeX', 'Markdown', 'XWiki'][idx % 6]]
         for pname in order:
             for kind in kinds if pname != 'plain' else ['Html']:
